@@ -40,13 +40,13 @@ fn sdi(data: &[u8]) -> Vec<u8> {
 
 /// the slow-path letters that may be packed two to a frame (BFS only): the ten slow-path letters of EVENTS and a
 /// Set Error Info carrying a non-zero code
-pub const INNER: [usize; 12] = [0, 1, 2, 3, 4, 5, 6, 7, 8, 9, 12, 13];
+pub const INNER: [usize; 13] = [0, 1, 2, 3, 4, 5, 6, 7, 8, 9, 12, 13, 14];
 
 /// first event id of the packed frames (letters 0..SINGLE-1 are single PDUs)
-pub const SINGLE: usize = 14;
+pub const SINGLE: usize = 15;
 
 /// number of events explored per state by the BFS: the 12 letters, letter 12 (set-error-info with a non-zero code),
-/// letter 13 (deactivate-all naming another share id) and every ordered pair of INNER letters packed into ONE frame
+/// letter 13 (deactivate-all naming another share id), letter 14 (a font list sent by the server) and every ordered pair of INNER letters packed into ONE frame
 pub fn n_bfs_events() -> usize {
     SINGLE + INNER.len() * INNER.len()
 }
@@ -66,6 +66,7 @@ pub fn event_name(ev: usize) -> String {
         0..=11 => EVENTS[ev].to_string(),
         12 => "set-error-info(non-zero)".to_string(),
         13 => "deactivate-all(naming another share id)".to_string(),
+        14 => "font-list(a client PDU, same layout as the font map, sent by the server)".to_string(),
         _ => {
             let d = decompose(ev);
             format!("one frame [{} + {}]", event_name(d[0]), event_name(d[1]))
@@ -86,6 +87,7 @@ fn event_inner(ev: usize, sid: u32) -> Vec<u8> {
         8 => share::save_session_info(sid, 1002),
         9 => share::deactivate_all(sid, 1002),
         13 => share::deactivate_all(sid ^ 0x0001_0001, 1002),
+        14 => share::font_list_from_server(sid, 1002),
         _ => share::set_error_info(sid, 1002, 5),
     }
 }
@@ -258,6 +260,8 @@ pub fn step(l: &mut Live, ev: usize) -> Result<Key, (String, String)> {
         let e = match e {
             12 => 7,
             13 => 9,
+            // a font list is not the font map: like any data PDU the state does not expect
+            14 => 8,
             _ => e,
         };
         permitted(st, e).into_iter().map(|s2| (s2, sh, vec![])).collect()
